@@ -15,8 +15,8 @@ import tgen
 PROP = "C16"
 LEVEL = "proof"
 GEN_UNITS = []
-COQ_TARGETS = ["Props/C16.vo", "Model/C16Harness.vo", "Model/C16Lines.vo", "Model/Harness.vo"]
-THEOREM_FILES = ["Props/C16.v"]
+COQ_TARGETS = ["Props/C16.vo", "Props/C16Num.vo", "Model/C16Harness.vo", "Model/C16Lines.vo", "Model/Harness.vo"]
+THEOREM_FILES = ["Props/C16.v", "Props/C16Num.v"]
 COQ_IMPORTS = ("From Coq Require Import String.\nFrom Coq Require Import List ZArith Bool.\n"
                "From PV Require Import Base.Index Np.Array Model.Sparse Model.Repr Model.Harness Model.C16IO Model.C16Big Model.C16Text Model.C16Harness.\n")
 RULE = ("objects of the four kinds (np.ndarray as 2-way matrix and as 1-/3-/4-way array) with seeded random shapes (orders 1-5, singleton "
@@ -28,7 +28,12 @@ RULE = ("objects of the four kinds (np.ndarray as 2-way matrix and as 1-/3-/4-wa
         "arrange, permute, S - S (computed empty), S * 2 — the reference is the object read entry by entry just before export, and "
         "export must leave it unchanged; sparse tensors with explicitly STORED +0.0 / -0.0 (plain constructor, in-place edit of "
         "vals, all entries zero); sparse tensors with LONG modes (1e9 .. 2^63-1) and subscripts next to 2^53 and to the ends of the "
-        "mode (op sptensor_big, Z-subscript model); non-default fmt_data / fmt_weights for all kinds; malformed stream (import "
+        "mode (op sptensor_big, Z-subscript model); ELEMENT TYPES: dense data, sparse values, matrices / arrays and assigned Kruskal "
+        "weights / factors of types int8..int64, uint8..uint64, bool, float16, float32 (values a double holds exactly, type extremes, "
+        "+-2^53, 2^62; what must come back is the float64 object with the same numbers), sparse SUBSCRIPT arrays of every integer "
+        "type with modes as long as the type allows and subscripts up to the type's largest value (that value itself = finding "
+        "C16-N4); dense tensors GROWN by pyttb (assignment of an element / a block beyond the current sizes: the data array pyttb "
+        "allocates then is not F-contiguous); non-default fmt_data / fmt_weights for all kinds; malformed stream (import "
         "side): valid files from an independent pure-Python writer, mutated 33 ways (wrong type word, truncation, extra / missing "
         "tokens on header and entry lines, one-subscript entry, index_base too large / too small, out-of-range subscript, values "
         "re-flowed over lines, blank lines, word among values, float subscript, trailing junk, nnz / rank / column mismatches, "
@@ -39,8 +44,8 @@ RULE = ("objects of the four kinds (np.ndarray as 2-way matrix and as 1-/3-/4-wa
         "entry and value lines, and attached to the type word; rank-0 Kruskal tensors and files (incl. junk on the lines import "
         "drops, missing row lines, rank line 0 over a rank-R body); non-trivial = more than one value and not all values equal")
 CORRESPONDENCE_ONLY = [
-    "the number text conversion itself (libc printf / strtod behind numpy tofile / fromfile and float()): that parse(print v) = v "
-    "for '%.16e' and that parse(print_fmt v) = float(fmt % v) for a coarser fmt_data / fmt_weights is compared bit-for-bit on "
+    "the number text conversion itself (libc printf / strtod behind numpy tofile / fromfile and float()): that both are CORRECTLY "
+    "ROUNDED (then parse(print v) = v for '%.16e' is a theorem: C16_seventeen_digits) and that parse(print_fmt v) = float(fmt % v) for a coarser fmt_data / fmt_weights is compared bit-for-bit on "
     "real files; everything else about non-default formats is proved (C16_roundtrip_any_format: what is read back is the object "
     "with every value replaced by parse(print_fmt v))",
     "classification of a white-space-free piece of a file as word / integer text / number text (what int(), np.int64() and "
@@ -55,7 +60,11 @@ ASSUMPTIONS = [
     "significant decimal digits) and parse is numpy fromfile(sep=' ') / float(str) (strtod): a Section hypothesis of the round-trip "
     "theorems. 17 significant digits suffice for binary64 (17 >= ceil(53*log10(2)) + 1: two distinct doubles never share a correctly "
     "rounded 17-digit decimal, so a correctly rounded parse returns the double printed); 16 digits ('%.15e') do not. Correct rounding "
-    "of libc's printf/strtod is trusted and TESTED bit-for-bit on every double written by the correspondence stream (count in "
+    "of libc's printf/strtod is trusted and TESTED; since wave 4 the step from correct rounding to parse(print v) = v is PROVED "
+    "(Props/C16Num.v, over Q, no axioms): C16_seventeen_digits — a decimal within half a unit of the 17th significant digit of a "
+    "nonzero binary64 number x (canonical significand / exponent, subnormals included) is strictly nearer to x than to any other "
+    "binary64 number; C16_sixteen_digits_collide — with 16 digits two neighbouring doubles share their nearest decimal. Rounding "
+    "of libc's printf/strtod is TESTED bit-for-bit on every double written by the correspondence stream (count in "
     "coverage.explanation); the seeded '%.15e' mutant is detected by these cases. C16_roundtrip_any_format needs no hypothesis",
     "a file is modelled at three levels, each tied to pyttb on real files: characters (Model/C16Text.v: blank / CR / LF / "
     "tab-VT-FF / white-space-free piece; readline().strip().split(' ') and np.fromfile's skipping as one pass), lines of tokens read line-"
@@ -250,7 +259,7 @@ def gen_cases(rng, tier):
 
 
 # ---------------------------------------------------------------- memory layouts, multi-step histories, stored zeros
-T_HIST = ["ctor_C", "ctor_nocopy", "assign_C", "assign_strided", "assign_negstride", "permute_back"]
+T_HIST = ["ctor_C", "ctor_nocopy", "assign_C", "assign_strided", "assign_negstride", "permute_back", "grown_elem", "grown_block"]
 K_HIST = ["assign_C", "assign_C_some", "assign_strided", "normalize_all", "normalize_k", "normalize_sort", "redistribute",
           "weights_strided", "ctor_nocopy", "arrange"]
 S_HIST = ["ctor_zeros", "ctor_zeros", "edit_vals", "assign_layout", "ctor_nocopy", "minus_self", "scaled", "all_zero"]
@@ -272,8 +281,8 @@ def gen_history_cases(rng, big):
     other operations, and sparse tensors with explicitly stored +0.0 / -0.0 (plain constructor, in-place edit of vals)"""
     out = []
     # dense tensors: at least two modes of size >= 2 so that the layouts differ
-    fixed = [(2, 3), (3, 2, 2), (2, 3, 4), (2, 2, 3, 2), (1, 3, 2), (4,), (2, 1, 2, 3, 2)]
-    for k in range(40 if big else 14):
+    fixed = [(2, 3), (3, 2, 2), (2, 3, 4), (2, 2, 3, 2), (1, 3, 2), (4,), (2, 3, 4), (3, 4, 2), (2, 1, 2, 3, 2)]
+    for k in range(48 if big else 16):
         shp = list(fixed[k]) if k < len(fixed) else tgen.rand_shape(rng, maxn=5, maxcells=(200 if big else 60), maxdim=5)
         bits = rand_vals(rng, math.prod(shp))
         a = {"shape": shp, "bits": bits, "hist": T_HIST[k % len(T_HIST)]}
@@ -281,6 +290,23 @@ def gen_history_cases(rng, big):
             q = list(range(len(shp)))
             rng.shuffle(q)
             a["perm"] = q
+        if a["hist"] in ("grown_elem", "grown_block"):
+            # a tensor GROWN by pyttb itself (assignment beyond the current sizes): its data array is what pyttb allocates
+            # then (not F-contiguous); needs >= 2 modes (a 1-way tensor cannot be resized) and a mode of size >= 2
+            if len(shp) < 2:
+                shp = a["shape"] = shp + [rng.randint(2, 3)]
+                bits = a["bits"] = rand_vals(rng, math.prod(shp))
+            if max(shp) < 2:
+                shp[rng.randrange(len(shp))] = 3
+                bits = a["bits"] = rand_vals(rng, math.prod(shp))
+            if a["hist"] == "grown_elem":
+                a["from"] = [rng.randint(1, d) for d in shp]
+                if a["from"] == shp:
+                    j = rng.choice([j for j, d in enumerate(shp) if d >= 2])
+                    a["from"][j] = shp[j] - 1
+            else:
+                j = rng.choice([j for j, d in enumerate(shp) if d >= 2])
+                a["grow_mode"], a["grow_from"], a["int_key"] = j, rng.randint(1, shp[j] - 1), rng.random() < 0.4
         out.append(Case("tensor", a, len(set(bits)) > 1))
     # Kruskal tensors: rank >= 2 and mode sizes >= 2 mostly (both layouts coincide otherwise), some rank 1 / singleton
     for k in range(70 if big else 24):
@@ -450,10 +476,10 @@ def gen_dtype_cases(rng, big):
         shp = [rng.choice([1, 2, 3, 5, min(top + 1, 100), top + 1, top + 1, max(top // 2, 1), max(top - 1, 1)]) for _ in range(N)]
         if at_max:
             shp[rng.randrange(N)] = top + 1
-        nz = rng.randint(1, 4)
+        nz = rng.randint(1, min(4, math.prod(shp) if at_max else math.prod(min(d, top) for d in shp)))
         subs = []
         while len(subs) < nz:
-            row = [min(max(rng.choice([d - 1, d - 2, d - 3, d // 2, rng.randrange(d), 0, 1]), 0), d - 1) for d in shp]
+            row = [min(max(rng.choice([d - 1, d - 2, d - 3, d // 2, rng.randrange(d), rng.randrange(d), 0, 1]), 0), d - 1) for d in shp]
             if not at_max:
                 row = [min(x, top - 1) for x in row]
             if row not in subs:
@@ -962,6 +988,20 @@ def _build_tensor(np, ttb, a):
         return ttb.tensor(np.ascontiguousarray(X))
     if h == "ctor_nocopy":
         return ttb.tensor(np.ascontiguousarray(X), copy=False)
+    if h == "grown_elem":
+        T0 = ttb.tensor(X[tuple(slice(0, d) for d in a["from"])].copy(order="F"))
+        last = tuple(d - 1 for d in shape)
+        T0[last] = X[last]                       # beyond the current sizes: pyttb re-allocates (zero padding)
+        return T0
+    if h == "grown_block":
+        j, f = a["grow_mode"], a["grow_from"]
+        T0 = ttb.tensor(X[tuple(slice(0, f if n == j else d) for n, d in enumerate(shape))].copy(order="F"))
+        if a["int_key"] and f == shape[j] - 1:
+            key = tuple(f if n == j else slice(None) for n, d in enumerate(shape))
+        else:
+            key = tuple(slice(f, d) if n == j else slice(0, d) for n, d in enumerate(shape))
+        T0[key] = X[key]
+        return T0
     if h == "permute_back":
         q = a["perm"]
         T0 = ttb.tensor(np.transpose(X, q).copy())
